@@ -27,6 +27,19 @@ def op_shards(bases, modes, ops, per=CASES_PER_QUERY):
     return out
 
 
+def op2_shards(bases, modes, op1, op2, which, fixed_range=None, per=CASES_PER_QUERY):
+    """K=2 shards for harnesses with the C01 parameter layout: the symbolic selector ranges over the arguments of op1 (which=0)
+    or op2 (which=1); the other op's argument index is fixed per shard (every index in fixed_range, default: all)."""
+    out = []
+    for b in bases:
+        for md in modes:
+            n_sel = op_count(b, op1 if which == 0 else op2)
+            n_fix = op_count(b, op2 if which == 0 else op1)
+            for fx in (fixed_range if fixed_range is not None else range(n_fix)):
+                for ch in range((n_sel + per - 1) // per):
+                    out.append({0: b, 1: md, 2: op1, 3: ch, 4: op2, 5: fx, 6: which})
+    return out
+
 # per-property job lists live in spec_<id>.py files (exec'd here so they share the helpers above)
 import glob as _glob, os as _os
 for _f in sorted(_glob.glob(_os.path.join(_os.path.dirname(_os.path.abspath(__file__)), "spec_C*.py"))):
